@@ -1,6 +1,7 @@
 import CppUModel.Base.Proto
 import CppUModel.Model.LeakDetector
 import CppUModel.Model.LeakReportText
+import CppUModel.Model.LeakPluginDrive
 /-!
 Replay of `h_c04` / `h_c06` traces through the detector model (shared by `Driver/C04.lean` and
 `Driver/C06.lean`).  Environment inputs (the address the underlying allocator / `PlatformSpecificRealloc`
@@ -19,6 +20,7 @@ structure DState where
   st      : State := State.init hashPrime
   reg     : Array RegEntry := #[]
   cur     : Current := { newA := default, newArrayA := default, mallocA := default }
+  report  : ReportAllocs := { mallocR := default, newR := default, newArrayR := default }   -- MemoryReporterPlugin members
   threadSafe : Bool := false     -- the g* operations go through the thread-safe overloads
   base    : Nat := 0      -- real address of the printed address 0 (environment, from the setup lines)
 deriving Inhabited
@@ -172,6 +174,11 @@ def alignLost (implFails : List (List String)) : List String → List String
       | [] => l :: alignLost [] rest
     else l :: alignLost implFails rest
 
+/-- `current <new> <new[]> <malloc>`: identities of the three current allocators, printed before the totals -/
+def addCurrent (d : DState) (r : DState × List String) : DState × List String :=
+  let line := s!"current {d.cur.newA.id} {d.cur.newArrayA.id} {d.cur.mallocA.id}"
+  (r.1, (r.2.dropLast.dropLast) ++ [line] ++ r.2.drop (r.2.length - 2))
+
 /-- model step on the trace; returns the new state and the model's observation lines -/
 def modelStepRaw (d : DState) (op : List String) (obs : List (List String)) : DState × List String :=
   let fin (d' : DState) (ls : List String) : DState × List String :=
@@ -222,6 +229,29 @@ def modelStepRaw (d : DState) (op : List String) (obs : List (List String)) : DS
     | some p => fin { d with st := clearAllAccounting d.st p } []
     | none => (d, ["bad-op"])
   | ["mark"] => fin { d with st := markChecking d.st } []
+  | ["plugin", "create"] => fin { d with st := pluginCreate d.st } []
+  | ["plugin", "pre"] => fin { d with st := pluginPre d.st } []
+  | ["plugin", "post"] => fin { d with st := pluginPost d.st } []
+  | ["plugin", "ignore"] => fin d []
+  | ["plugin", "expect", _] => fin d []
+  | ["mrp", "create"] =>
+    -- three more allocator objects: the plugin's report allocators (they wrap nothing yet)
+    let i := d.reg.size
+    let r : ReportAllocs := { mallocR := .wrap i default, newR := .wrap (i + 1) default, newArrayR := .wrap (i + 2) default }
+    let d' := { d with report := r, reg := ((d.reg.push { alloc := r.mallocR, recording := false }).push
+                  { alloc := r.newR, recording := false }).push { alloc := r.newArrayR, recording := false } }
+    fin d' (obs.filter (fun l => l.head? == some "parsed") |>.map (fun l => " ".intercalate l)) |> addCurrent d'
+  | ["mrp", "pre"] =>
+    let rc := reportPre d.report d.cur
+    let upd (reg : Array RegEntry) (a : Allocator) : Array RegEntry :=
+      reg.map (fun e => if e.alloc.id == a.id then { e with alloc := a } else e)
+    let reg := upd (upd (upd d.reg rc.1.mallocR) rc.1.newR) rc.1.newArrayR
+    let st := ((d.st.rebind rc.1.mallocR).rebind rc.1.newR).rebind rc.1.newArrayR
+    let d' := { d with report := rc.1, cur := rc.2, reg := reg, st := st }
+    fin d' [] |> addCurrent d'
+  | ["mrp", "post"] =>
+    let d' := { d with cur := reportPost d.report d.cur }
+    fin d' [] |> addCurrent d'
   | ["overloads", "threadsafe"] => fin { d with threadSafe := true } []
   | ["overloads", "plain"] => fin { d with threadSafe := false } []
   | ["drop", _] => fin d []        -- the client returns an untracked block to the underlying allocator: not the detector's business
